@@ -333,8 +333,9 @@ def get_requires_parking(element: IQubitID, edge_ids: List[IEdgeID], connectivit
     neighboring_qubit_ids: List[IQubitID] = connectivity.get_neighbors(qubit=element, order=1)
     involved_qubits: List[IQubitID] = [qubit_id for edge_id in edge_ids for qubit_id in edge_id.qubit_ids]
     involved_edges: List[IEdgeID] = [edge_id for edge_id in edge_ids for _ in edge_id.qubit_ids]
-    involved_neighbors: List[IQubitID] = [qubit_id for qubit_id in neighboring_qubit_ids if qubit_id in involved_qubits]
-    involved_neighbor_edges: List[IEdgeID] = [involved_edges[involved_qubits.index(qubit_id)] for qubit_id in neighboring_qubit_ids if qubit_id in involved_qubits]
+    # NOTE: A neighboring qubit can take part in more than one of the edges. Consider each (qubit, edge) participation.
+    involved_neighbors: List[IQubitID] = [qubit_id for qubit_id in involved_qubits if qubit_id in neighboring_qubit_ids]
+    involved_neighbor_edges: List[IEdgeID] = [edge_id for qubit_id, edge_id in zip(involved_qubits, involved_edges) if qubit_id in neighboring_qubit_ids]
     involved_frequency_groups: List[FrequencyGroupIdentifier] = [connectivity.get_frequency_group_identifier(element=qubit_id) for qubit_id in involved_neighbors]
     return any([
         neighbor_frequency_group.is_higher_than(frequency_group) and on_moving_side(neighbor_qubit_id, neighbor_edge_id, connectivity)
